@@ -27,20 +27,22 @@ pub enum StringOrMapString {
     Map(IndexMap<String, String>),
 }
 
-impl From<StringOrMapString> for crate::model::VarExportSpec {
-    fn from(value: StringOrMapString) -> Self {
-        match value {
-            StringOrMapString::String(s) => VarExportSpec {
+impl StringOrMapString {
+    /// A plain name exports that variable; a map exports each of its entries
+    /// (an empty map exports nothing).
+    pub fn into_specs(self) -> Vec<VarExportSpec> {
+        match self {
+            StringOrMapString::String(s) => vec![VarExportSpec {
                 variable: s,
                 content: None,
-            },
-            StringOrMapString::Map(m) => {
-                let (k, v) = m.into_iter().last().unwrap();
-                VarExportSpec {
+            }],
+            StringOrMapString::Map(m) => m
+                .into_iter()
+                .map(|(k, v)| VarExportSpec {
                     variable: k,
                     content: Some(v),
-                }
-            }
+                })
+                .collect(),
         }
     }
 }
